@@ -15,25 +15,26 @@ import fixtures
 import render
 from common import Check, b64, harness, seed, tlc, tlc_ok
 
-CONST_NONE = {"History": "FALSE", "MaxLen": "0", "EmitMode": '"none"', "SampleMod": "1", "SamplePick": "0", "ValidOnly": "FALSE"}
+CONST_NONE = {"History": "FALSE", "MaxLen": "0", "EmitMode": '"none"', "SampleMod": "1", "SamplePick": "0", "ValidOnly": "FALSE", "MaxInc": "0"}
 
 
 def flatten(forest):
-    """real forest -> {keyword begin: parent keyword begin or None}"""
+    """real forest -> {(file, keyword begin): (file, keyword begin) of the parent or None}"""
     res = {}
 
     def rec(n, parent):
-        res[n["b"]] = parent
+        key = (n.get("f") or "main.jst", n["b"])
+        res[key] = parent
         for c in n["c"]:
-            rec(c, n["b"])
+            rec(c, key)
     for n in forest:
         rec(n, None)
     return res
 
 
-def judge(doc, data, spans, want, o):
+def judge(doc, files, spans, want, o):
     """Compares the real observation o with the prediction `want` (v, at, par).
-    Returns None if they agree, else a description."""
+    spans[i] = (file, begin, end).  Returns None if they agree, else a description."""
     v = want["v"]
     if o["outcome"] in ("panic", "fatal", "timeout"):
         return "real code %s: %s" % (o["outcome"], o.get("panic", ""))
@@ -41,14 +42,14 @@ def judge(doc, data, spans, want, o):
     if v == "ok":
         if not scanned:
             e = o.get("err") or {}
-            return "predicted placement of every directive, but the scan stage rejected: %r at %s" % (
-                e.get("msg"), e.get("index"))
+            return "predicted placement of every directive, but the scan stage rejected: %r at %s:%s" % (
+                e.get("msg"), e.get("file"), e.get("index"))
         real = flatten(o.get("forest") or [])
-        begin2item = {spans[i][0]: i for i in spans if doc[i - 1]["t"] == "kw"}
+        begin2item = {spans[i][:2]: i for i in spans if doc[i - 1]["t"] == "kw"}
         for i, it in enumerate(doc, 1):
             if it["t"] != "kw":
                 continue
-            b = spans[i][0]
+            b = spans[i][:2]
             if b not in real:
                 return "directive item %d (%s) is missing from the forest" % (i, it["k"])
             rp = real[b]
@@ -70,7 +71,7 @@ def judge(doc, data, spans, want, o):
             for i, it in enumerate(doc, 1):
                 if it["t"] != "kw" or i in inmacro:
                     continue
-                b = spans[i][0]
+                b = spans[i][:2]
                 if b not in after:
                     return "after expansion: directive item %d (%s) is missing from the forest" % (i, it["k"])
                 rp = after[b]
@@ -83,19 +84,21 @@ def judge(doc, data, spans, want, o):
     e = o.get("err")
     if not e:
         return "predicted %s, observed outcome %s" % (v, o["outcome"])
-    idx = e["index"]
-    if v == "rej_ctx":
-        if idx != spans[want["at"]][0]:
-            return "predicted incorrect-context rejection of item %d at byte %d, diagnostic is at byte %d (%r)" % (
-                want["at"], spans[want["at"]][0], idx, e["msg"])
-    elif v in ("err_close", "err_open"):
-        if idx != spans[want["at"]][0]:
-            return "predicted rejection of the parenthesis item %d at byte %d, diagnostic is at byte %d (%r)" % (
-                want["at"], spans[want["at"]][0], idx, e["msg"])
+    idx = (e["file"], e["index"])
+    if v in ("rej_ctx", "err_close", "err_open", "err_jsight_inc"):
+        if idx != spans[want["at"]][:2]:
+            return "predicted %s of item %d at %s byte %d, diagnostic is at %s byte %d (%r)" % (
+                v, want["at"], spans[want["at"]][0], spans[want["at"]][1], idx[0], idx[1], e["msg"])
     elif v == "err_eof":
-        last = max(s[0] for s in spans.values()) if spans else 0
-        if idx < last:
-            return "predicted rejection at end of input (open parenthesis), diagnostic is at byte %d (%r)" % (idx, e["msg"])
+        last = max((s[1] for s in spans.values() if s[0] == "main.jst"), default=0)
+        if idx[0] != "main.jst" or idx[1] < last:
+            return "predicted rejection at end of input (open parenthesis), diagnostic is at %s byte %d (%r)" % (idx[0], idx[1], e["msg"])
+    elif v == "err_fe":
+        f = spans[want["at"]][0]
+        last = max((s[1] for i, s in spans.items() if s[0] == f and i != want["at"]), default=0)
+        if idx[0] != f or idx[1] < last:
+            return "predicted rejection at the end of the included file %s (open parenthesis), diagnostic is at %s byte %d (%r)" % (
+                f, idx[0], idx[1], e["msg"])
     else:
         return "unexpected prediction %s" % v
     return None
@@ -106,25 +109,26 @@ def run_docs(chk, recs, tag):
     meta = {}
     for n, r in enumerate(recs):
         doc = r["doc"]
-        data, spans = render.render_tree_doc(doc)
+        files, spans = render.render_tree_project(doc)
         cid = "%s%d" % (tag, n)
-        cases.append({"id": cid, "files": {"main.jst": b64(data)}, "root": "main.jst", "want": ["forest", "pastes"]})
-        meta[cid] = (doc, data, spans, r)
+        cases.append({"id": cid, "files": {f: b64(t) for f, t in files.items()}, "root": "main.jst", "want": ["forest", "pastes"]})
+        meta[cid] = (doc, files, spans, r)
     obs = harness("run", cases)
     agree_impl = 0
-    for cid, (doc, data, spans, r) in meta.items():
+    for cid, (doc, files, spans, r) in meta.items():
         o = obs[cid]
+        data = b"".join(b"--- %s\n%s" % (f.encode(), t) for f, t in files.items()) if len(files) > 1 else files["main.jst"]
         chk.evaluations += 1
         chk.traces += 1
         chk.nontrivial.add(json.dumps(doc, sort_keys=True))
-        bad = judge(doc, data, spans, r["out"], o)
-        if judge(doc, data, spans, r["impl"], o) is None:
+        bad = judge(doc, files, spans, r["out"], o)
+        if judge(doc, files, spans, r["impl"], o) is None:
             agree_impl += 1
         if bad:
             sig = {"devs": ",".join(sorted(r["impl"]["devs"])) or "none",
-                   "matches_impl": "yes" if judge(doc, data, spans, r["impl"], o) is None else "no"}
+                   "matches_impl": "yes" if judge(doc, files, spans, r["impl"], o) is None else "no"}
             chk.violation(bad + " | document: " + data.decode()[:300].replace("\n", "\\n"),
-                          {"kind": "tree_doc", "doc": doc, "file": data.decode(), "expected": r["out"],
+                          {"kind": "tree_doc", "doc": doc, "file": data.decode(), "files": {f: t.decode() for f, t in files.items()}, "expected": r["out"],
                            "expected_from": "JSightTree!Meaning(doc)", "observed": o, "signature": sig}, sig)
     return agree_impl, len(meta)
 
@@ -136,8 +140,8 @@ def main(tier, only_replay=None):
     # table conformance first: the spec's tables against the real functions
     fixtures.check_tables(chk)
     # 1. exhaustive closed graph + per-transition documents
-    mod = 40 if thorough else 600
-    c = dict(CONST_NONE, EmitMode='"graph"', SampleMod=str(mod), SamplePick=str(sd % mod))
+    mod = 100 if thorough else 1500
+    c = dict(CONST_NONE, EmitMode='"graph"', SampleMod=str(mod), SamplePick=str(sd % mod), MaxInc="2" if thorough else "1")
     r = tlc_ok(tlc("JSightTree", "Tree_graph.cfg", consts=c, timeout=3000), "JSightTree graph")
     chk.add_tlc(r)
     chk.extra["graph_states"] = r.states
@@ -148,14 +152,14 @@ def main(tier, only_replay=None):
     a1, n1 = run_docs(chk, recs, "g")
     # 2. all sequences up to a bound
     bound = 4 if thorough else 3
-    c = dict(CONST_NONE, History="TRUE", MaxLen=str(bound), EmitMode='"docs"')
+    c = dict(CONST_NONE, History="TRUE", MaxLen=str(bound), EmitMode='"docs"', MaxInc="1")
     r = tlc_ok(tlc("JSightTree", "Tree_docs.cfg", consts=c, timeout=3000), "JSightTree docs")
     chk.add_tlc(r)
     chk.extra["exhaustive_sequences_upto"] = bound
     a2, n2 = run_docs(chk, r.mbt, "d")
     # 3. random long walks
     nsim = 20000 if thorough else 1500
-    c = dict(CONST_NONE, History="TRUE", MaxLen="40", EmitMode='"docs"')
+    c = dict(CONST_NONE, History="TRUE", MaxLen="40", EmitMode='"docs"', MaxInc="2")
     r = tlc_ok(tlc("JSightTree", "Tree_docs.cfg", consts=c, simulate=nsim, depth=45, tlc_seed=sd, workers=8 if thorough else 4,
                    timeout=3000), "JSightTree simulate")
     chk.add_tlc(r)
@@ -164,7 +168,7 @@ def main(tier, only_replay=None):
     a3, n3 = run_docs(chk, r.mbt, "s")
     # 3b. random walks that stay acceptable: long well-nested documents whose forest is rebuilt by the
     #     MACRO/PASTE expansion stage (same resolution code, second use)
-    c = dict(CONST_NONE, History="TRUE", MaxLen="30", EmitMode='"docs"', ValidOnly="TRUE")
+    c = dict(CONST_NONE, History="TRUE", MaxLen="30", EmitMode='"docs"', ValidOnly="TRUE", MaxInc="2")
     r = tlc_ok(tlc("JSightTree", "Tree_docs.cfg", consts=c, simulate=nsim, depth=40, tlc_seed=sd + 1, workers=8 if thorough else 4,
                    timeout=3000), "JSightTree valid walks")
     chk.add_tlc(r)
